@@ -4,6 +4,7 @@ package main
 // E8.enc — encoding levels: query-encoded strings must not be stored into URL fields that encode again.
 
 import (
+	"golang.org/x/tools/go/types/typeutil"
 	"fmt"
 	"go/ast"
 	"go/types"
@@ -258,34 +259,79 @@ func RunFormPostTemplate(c *Ctx) {
 	c.R.Extra["template_slots"] = len(slots)
 }
 
-// schemaTagsOfFormPostArgs: schema tag names of the struct types passed as `response` to op.AuthResponseFormPost.
+// schemaTagsOfFormPostArgs: schema tag names of the struct types that may flow into the `response` parameter of
+// op.AuthResponseFormPost - directly, or through a parameter of an intermediate function (followed to its callers).
 func schemaTagsOfFormPostArgs(c *Ctx) map[string]bool {
 	out := map[string]bool{}
-	for _, fi := range c.P.Funcs {
-		if fi.Body == nil || shortPkg(fi.Pkg.PkgPath) != "op" {
-			continue
+	addStruct := func(t types.Type) bool {
+		st, ok := derefType(t).Underlying().(*types.Struct)
+		if !ok {
+			return false
 		}
-		info := fi.Pkg.TypesInfo
-		ast.Inspect(fi.Body, func(n ast.Node) bool {
-			call, ok := n.(*ast.CallExpr)
-			if !ok || len(call.Args) < 3 {
-				return true
+		for i := 0; i < st.NumFields(); i++ {
+			tag := reflect.StructTag(st.Tag(i)).Get("schema")
+			name := strings.Split(tag, ",")[0]
+			if name != "" && name != "-" {
+				out[name] = true
 			}
-			if id, ok := unparen(call.Fun).(*ast.Ident); !ok || id.Name != "AuthResponseFormPost" {
-				return true
+		}
+		return true
+	}
+	// collect(fnObj, argIndex): the concrete struct types passed in that argument position, following parameters upwards
+	type key struct {
+		fn  *types.Func
+		idx int
+	}
+	seen := map[key]bool{}
+	var collect func(fn *types.Func, idx int, depth int)
+	collect = func(fn *types.Func, idx int, depth int) {
+		k := key{fn, idx}
+		if seen[k] || depth > 4 {
+			return
+		}
+		seen[k] = true
+		for _, fi := range c.P.Funcs {
+			if fi.Body == nil || fi.Ctl {
+				continue
 			}
-			t := derefType(info.TypeOf(call.Args[2]))
-			if st, ok := t.Underlying().(*types.Struct); ok {
-				for i := 0; i < st.NumFields(); i++ {
-					tag := reflect.StructTag(st.Tag(i)).Get("schema")
-					name := strings.Split(tag, ",")[0]
-					if name != "" && name != "-" {
-						out[name] = true
+			info := fi.Pkg.TypesInfo
+			ast.Inspect(fi.Body, func(n ast.Node) bool {
+				call, ok := n.(*ast.CallExpr)
+				if !ok || len(call.Args) <= idx {
+					return true
+				}
+				callee, _ := typeutil.Callee(info, call).(*types.Func)
+				if callee == nil || callee.Origin() != fn {
+					return true
+				}
+				arg := unparen(call.Args[idx])
+				if addStruct(info.TypeOf(arg)) {
+					return true
+				}
+				// not a struct (an interface-typed value): a parameter of the enclosing declaration is followed to its callers
+				if id, ok := arg.(*ast.Ident); ok {
+					if v, ok := info.Uses[id].(*types.Var); ok {
+						root := fi.Root()
+						if root.Obj != nil && root.Sig != nil {
+							for i := 0; i < root.Sig.Params().Len(); i++ {
+								if root.Sig.Params().At(i) == v {
+									collect(root.Obj, i, depth+1)
+								}
+							}
+						}
+						for _, d := range localDefsOf(fi)[v] {
+							if d.idx == -1 {
+								addStruct(info.TypeOf(d.e))
+							}
+						}
 					}
 				}
-			}
-			return true
-		})
+				return true
+			})
+		}
+	}
+	if fi := c.P.Fn("op.AuthResponseFormPost"); fi != nil && fi.Obj != nil {
+		collect(fi.Obj, 2, 0)
 	}
 	return out
 }
